@@ -24,6 +24,7 @@ type Closure struct {
 
 type State struct {
 	pc       *Term
+	guard    *Term // branch decisions taken since the current function activation began (no wf assumptions)
 	vars     map[types.Object]*Var
 	heap     map[string]*Term
 	closures map[types.Object]*Closure
@@ -33,11 +34,11 @@ type State struct {
 }
 
 func newState() *State {
-	return &State{pc: TTrue, vars: map[types.Object]*Var{}, heap: map[string]*Term{}, closures: map[types.Object]*Closure{}}
+	return &State{pc: TTrue, guard: TTrue, vars: map[types.Object]*Var{}, heap: map[string]*Term{}, closures: map[types.Object]*Closure{}}
 }
 
 func (s *State) clone() *State {
-	n := &State{pc: s.pc, vars: make(map[types.Object]*Var, len(s.vars)), heap: make(map[string]*Term, len(s.heap)), closures: make(map[types.Object]*Closure, len(s.closures)), dead: s.dead, defers: s.defers, epoch: s.epoch}
+	n := &State{pc: s.pc, guard: s.guard, vars: make(map[types.Object]*Var, len(s.vars)), heap: make(map[string]*Term, len(s.heap)), closures: make(map[types.Object]*Closure, len(s.closures)), dead: s.dead, defers: s.defers, epoch: s.epoch}
 	for k, v := range s.vars {
 		cp := *v
 		n.vars[k] = &cp
@@ -96,6 +97,19 @@ func (c *Ctx) heapSet(st *State, name string, t *Term) {
 	st.heap[name] = t
 }
 
+// assumeBranch records a branch decision: it goes to the path condition and to the guard that later selects
+// between the values of merged paths.
+func (c *Ctx) assumeBranch(st *State, f *Term) {
+	c.assume(st, f)
+	if st.guard == nil {
+		st.guard = TTrue
+	}
+	st.guard = And(st.guard, f)
+	if c.inQuant == 0 && st.guard.Op == "and" && len(st.guard.Args) >= 3 {
+		st.guard = c.define(st.guard, "g")
+	}
+}
+
 // assume adds a fact to the path condition, naming the new pc.
 func (c *Ctx) assume(st *State, f *Term) {
 	if f.Op == "true" {
@@ -138,7 +152,23 @@ func (c *Ctx) merge(states ...*State) *State {
 func (c *Ctx) merge2(a, b *State) *State {
 	n := newState()
 	n.epoch = a.epoch
-	cond := a.pc // in join, value = ite(a.pc, a.val, b.val)
+	// in a join, value = ite(guard of a, a.val, b.val): the guards hold branch decisions only, so merged values do
+	// not depend on well-formedness assumptions made along the way
+	cond := a.guard
+	if cond == nil || cond.Op == "true" {
+		cond = a.pc
+	}
+	ga, gb := a.guard, b.guard
+	if ga == nil {
+		ga = TTrue
+	}
+	if gb == nil {
+		gb = TTrue
+	}
+	n.guard = Or(ga, gb)
+	if c.inQuant == 0 && n.guard.Op == "or" {
+		n.guard = c.define(n.guard, "g")
+	}
 	n.pc = Or(a.pc, b.pc)
 	if n.pc.Op == "or" && c.inQuant == 0 {
 		p := c.fresh("pc", SBool)
